@@ -48,7 +48,7 @@ fn strip_dot(p: &str) -> &str {
 }
 
 fn glob_match(pat: &str, path: &str) -> bool {
-    globset::Glob::new(pat).expect("pattern pool is valid").compile_matcher().is_match(strip_dot(path))
+    crate::globfact::is_match(pat, strip_dot(path))
 }
 
 fn src_str(s: &WarnAtSource) -> String {
@@ -379,5 +379,7 @@ pub fn run(tier: Tier, seed: u64, out: &str) {
         emit(&mut sink, &g, i % 4 == 0);
     }
     let _ = guarded(String::new);
+    crate::globfact::stream(&mut sink, &mut r, tier.scale(400, 6000));
+    crate::globfact::flush(&mut sink);
     sink.finish(out);
 }
